@@ -51,6 +51,7 @@ func checkC11(r *Run) {
 	r.Rule("C11.R2.failure", "every iteration of the proposal loop that does not return stores a non-nil error in the named result (so the trailing 'return res, err' cannot report success), and the loop runs at least once", 2)
 	r.Rule("C11.R5.clusterkey", "cluster.Open hands pledge.Arbitrate a configuration whose ClusterKey was assigned from the cluster's key on every path; a joining node adopts the ClusterKey of the pledge response", 3)
 	r.Rule("C11.ERR", "no error returned by a call is discarded in the pledge and cluster-open code except the tabled sites (a swallowed juror or arbitration error admits a node without its quorum)", 1)
+	r.Rule("C11.R6.search", "a binary search is applied only to slices that are kept ordered (inserted at the found position or sorted after appending); juror.approvals is append-only, so membership must be tested linearly", 1)
 	r.Rule("C11.R3.failures", "consultQuorum asks every quorum member, each goroutine returns the Send error unchanged, and the result is wg.Wait()", 3)
 	r.Rule("C11.R4.monotone", "responsible._proposedKey is assigned only in idToPropose, by highestNodeID(snapshot)+1 or by ++", 2)
 
@@ -172,6 +173,8 @@ func checkC11(r *Run) {
 
 	checkPropose(r, p)
 	checkClusterKey(r, p)
+	checkPledgeKey(r, p)
+	checkSortedSearch(r, p)
 	checkErrDrop(r, p, "C11.ERR", func(fn *FuncNode) bool { return fn.InPkgs("aspen/internal/cluster/pledge") || (fn.InPkgs("aspen/internal/cluster") && !fn.InPkgs("aspen/internal/cluster/gossip", "aspen/internal/cluster/store")) }, 40)
 	checkConsultQuorum(r, p)
 
@@ -700,4 +703,111 @@ func checkClusterKey(r *Run, p *Prog) {
 		r.Ob("C11.R5.clusterkey", fmt.Sprintf("SetClusterKey call #%d in cluster.Open", n), p.Position(call.Pos()), good, "the cluster key is either the one the pledge response carried or a fresh uuid for a bootstrapped cluster; got "+what)
 		return true
 	})
+}
+
+// checkPledgeKey: the pledging node arbitrates future pledges with the cluster key it
+// was just given: in pledge.Pledge every arbitrate(cfg) is preceded, on every path, by
+// "cfg.ClusterKey = <response>.ClusterKey" on that very variable (a helper that receives
+// the configuration by value cannot do it).
+func checkPledgeKey(r *Run, p *Prog) {
+	fn := p.Func(pledgePkg, "", "Pledge")
+	arb := p.Func(pledgePkg, "", "arbitrate")
+	if fn == nil || arb == nil {
+		r.Undecide("C11.R5: pledge.Pledge / pledge.arbitrate not found")
+		return
+	}
+	c := p.CFG(fn)
+	calls := CallsIn(fn, calleeIs(arb))
+	if len(calls) == 0 {
+		r.Undecide("C11.R5: pledge.Pledge does not call arbitrate")
+		return
+	}
+	for i, call := range calls {
+		if len(call.Args) != 1 {
+			continue
+		}
+		want := types.ExprString(call.Args[0]) + ".ClusterKey"
+		isAssign := func(n ast.Node) bool {
+			as, ok := n.(*ast.AssignStmt)
+			if !ok || len(as.Lhs) != 1 || len(as.Rhs) != 1 || types.ExprString(as.Lhs[0]) != want {
+				return false
+			}
+			sel, ok := ast.Unparen(as.Rhs[0]).(*ast.SelectorExpr)
+			return ok && sel.Sel.Name == "ClusterKey"
+		}
+		cp, ok := c.Locate(call)
+		if !ok {
+			r.Undecide("C11.R5: arbitrate call not located")
+			continue
+		}
+		q, vis := c.ReachAvoiding([]Point{c.Entry()}, nil, isAssign)
+		var path []string
+		if vis[cp] {
+			path = q.PathTo(cp)
+		}
+		r.ObPath("C11.R5.clusterkey", fmt.Sprintf("arbitrate call #%d in pledge.Pledge receives %s = response.ClusterKey", i+1, want), p.Position(call.Pos()), !vis[cp],
+			"the freshly admitted node answers later pledges with the configuration it arbitrates with; without the assignment on that variable it hands out the zero cluster key", path)
+	}
+}
+
+// checkSortedSearch decides C11.R6 over the pledge and cluster packages.
+func checkSortedSearch(r *Run, p *Prog) {
+	n := 0
+	for _, fn := range p.Funcs {
+		if fn.Body == nil || !fn.InPkgs("aspen/internal/cluster") {
+			continue
+		}
+		inspectNoLit(fn.Body, func(x ast.Node) bool {
+			call, ok := x.(*ast.CallExpr)
+			if !ok || len(call.Args) < 2 {
+				return true
+			}
+			f := CalleeFunc(fn, call)
+			if f == nil || f.Pkg() == nil || !(f.Pkg().Path() == "slices" && strings.HasPrefix(f.Name(), "BinarySearch") || f.Pkg().Path() == "sort" && strings.HasPrefix(f.Name(), "Search")) {
+				return true
+			}
+			n++
+			sel, ok := ast.Unparen(call.Args[0]).(*ast.SelectorExpr)
+			if !ok {
+				r.Ob("C11.R6.search", "binary search in "+fn.Name, posOf(p, call), true, "not on a field")
+				return true
+			}
+			fld := fieldVar(fn, sel)
+			appendOnly, ordered := false, false
+			for _, g := range p.Funcs {
+				if g.Body == nil || g.Pkg != fn.Pkg {
+					continue
+				}
+				inspectNoLit(g.Body, func(y ast.Node) bool {
+					switch v := y.(type) {
+					case *ast.AssignStmt:
+						for i, l := range v.Lhs {
+							ls, ok := ast.Unparen(l).(*ast.SelectorExpr)
+							if !ok || fieldVar(g, ls) != fld || i >= len(v.Rhs) {
+								continue
+							}
+							if c2, ok := ast.Unparen(v.Rhs[i]).(*ast.CallExpr); ok {
+								if bi, ok := Callee(g, c2).(*types.Builtin); ok && bi.Name() == "append" {
+									appendOnly = true
+								}
+								if f2 := CalleeFunc(g, c2); f2 != nil && f2.Pkg() != nil && f2.Pkg().Path() == "slices" && f2.Name() == "Insert" {
+									ordered = true
+								}
+							}
+						}
+					case *ast.CallExpr:
+						if f2 := CalleeFunc(g, v); f2 != nil && f2.Pkg() != nil && (f2.Pkg().Path() == "slices" || f2.Pkg().Path() == "sort") && strings.HasPrefix(f2.Name(), "Sort") && len(v.Args) > 0 {
+							if s2, ok := ast.Unparen(v.Args[0]).(*ast.SelectorExpr); ok && fieldVar(g, s2) == fld {
+								ordered = true
+							}
+						}
+					}
+					return true
+				})
+			}
+			r.Ob("C11.R6.search", "binary search on "+types.ExprString(call.Args[0])+" in "+fn.Name, posOf(p, call), !appendOnly || ordered, "the slice is only ever appended to (retries propose keys out of order), so a binary search misses recorded keys and the juror approves a key twice")
+			return true
+		})
+	}
+	r.Ob("C11.R6.search", "binary searches in the cluster packages run on ordered slices", "", true, fmt.Sprintf("%d binary search call(s) examined", n))
 }
